@@ -62,12 +62,12 @@ def register(reg):
     k = reg.contract("_processor:Processor.transfer", virtual=True, assumed=True, properties=P, result_td=TPay,
                      note="user hook: returns a payload holding the source's rows in the destination engine")
     k.req("hook-source-is-self-contained", lambda c: B(ready(payload_heap(c), c.source.z)))
-    k.req("hook-not-invoked-for-trivial-relations", lambda c: B(z3.Not(trivial(c, c.source.z))))
+    k.req("hook-not-invoked-for-trivial-relations", lambda c: B(z3.Not(trivial(c, c.state.env["original"].z)) if "original" in c.state.env else z3.BoolVal(True)))
     k.ens("payload-holds-the-sources-rows", lambda c: B(z3.And(c.result.z != smt.NONE, V.content(c.result.z) == V.rows(c.source.z))))
     k = reg.contract("_processor:Processor.materialize", virtual=True, assumed=True, properties=P, result_td=TPay,
                      note="user hook: returns a payload holding the target's rows")
     k.req("hook-target-is-self-contained", lambda c: B(ready(payload_heap(c), c.target.z)))
-    k.req("hook-not-invoked-for-trivial-relations", lambda c: B(z3.Not(trivial(c, c.target.z))))
+    k.req("hook-not-invoked-for-trivial-relations", lambda c: B(z3.Not(trivial(c, c.state.env["original"].z)) if "original" in c.state.env else z3.BoolVal(True)))
     k.ens("payload-holds-the-targets-rows", lambda c: B(z3.And(c.result.z != smt.NONE, V.content(c.result.z) == V.rows(c.target.z))))
 
     # ---- engine payload factories for trivial relations
@@ -83,6 +83,9 @@ def register(reg):
                      result_td=smt.TTupleT([TRel, smt.TBool]))
     k.req("payloads-hold-their-relations-rows", lambda c: B(payload_inv(c, payload_heap(c))))
     k.req("relation-columns-truthful", lambda c: B(truthful_cols(c, c.original.z)))
+    lf = z3.Const("lf", smt.Ref)
+    k.req("leaves-carry-payloads", lambda c: B(z3.ForAll([lf], z3.Implies(smt.typ(lf) == cid(c, "LeafRelation"), z3.Select(payload_heap(c), lf) != smt.NONE),
+                                                         patterns=[z3.Select(payload_heap(c), lf)])))
     res = lambda c: c.result.items[0].z  # noqa: E731
     H0 = lambda c: payload_heap(c, True)  # noqa: E731
     H1 = lambda c: payload_heap(c)  # noqa: E731
@@ -92,13 +95,13 @@ def register(reg):
     k.ens("result-can-be-evaluated-by-its-engine-alone", lambda c: B(ready(H1(c), res(c))))
     k.ens("payloads-still-hold-their-relations-rows", lambda c: B(payload_inv(c, H1(c))))
     k.ens("payloads-are-never-replaced",
-          lambda c: B(z3.ForAll([r], z3.Implies(z3.Select(H0(c), r) != smt.NONE, z3.Select(H1(c), r) == z3.Select(H0(c), r)), patterns=[z3.Select(H1(c), r)])))
+          lambda c: B(z3.ForAll([r], z3.Implies(z3.And(smt.born(r) <= 0, z3.Select(H0(c), r) != smt.NONE), z3.Select(H1(c), r) == z3.Select(H0(c), r)), patterns=[z3.Select(H1(c), r)])))
     k.ens("transfers-of-the-input-tree-never-gain-payloads",
           lambda c: B(z3.ForAll([r], z3.Implies(z3.And(smt.typ(r) == cid(c, "Transfer"), smt.born(r) <= 0), z3.Select(H1(c), r) == z3.Select(H0(c), r)), patterns=[z3.Select(H1(c), r)])))
     k.ens("only-nodes-of-this-tree-or-new-nodes-change",
           lambda c: B(z3.ForAll([r], z3.Implies(z3.And(height(r) > height(c.original.z), smt.born(r) <= 0), z3.Select(H1(c), r) == z3.Select(H0(c), r)), patterns=[z3.Select(H1(c), r)])))
     k.ens("a-processed-materialization-has-its-payload",
-          lambda c: B(z3.Implies(smt.typ(c.original.z) == cid(c, "Materialization"), z3.Select(H1(c), c.original.z) != smt.NONE)))
+          lambda c: B(z3.Implies(smt.typ(c.original.z) == cid(c, "Materialization"), z3.Or(z3.Select(H1(c), c.original.z) != smt.NONE, trivial(c, c.original.z)))))
     k.raises("EngineError", None)
     k.raises("ColumnError", None)
     k.raises("RelationalAlgebraError", None)
